@@ -58,14 +58,14 @@ theorem tab_congr' {K : Type} (n : Nat) (f g : Nat → K) (h : ∀ i, i < n → 
     have hi : i < n := by simpa [tab] using h1
     simp [tab, h i hi]
 
-/-- **the real scalar butterfly is `semDft`** — the semantics `Recipe.sem` gives a `bfly n` leaf -/
-theorem butterfly_program_eq_semDft (P : RawProg) (hP : P ∈ Gen.allButterflies) (S : CosSys R P.grid)
+/-- a program that passes the check, run on the re/im parts of an array of complex pairs, is `semDft` -/
+theorem checked_program_eq_semDft (P : RawProg) (hc : P.check = true) (S : CosSys R P.grid)
     (invR : Nat → R) (x : Array (Cx R)) :
     bflySem P S x = semDft (cosCtx S P.inverse invR) P.n x := by
   unfold bflySem semDft
   apply tab_congr'
   intro k hk
-  obtain ⟨hre, him⟩ := scalar_butterflies_are_dft P hP S
+  obtain ⟨hre, him⟩ := checked_program_is_dft P hc S
     (fun j => if j % 2 = 0 then (at' x (j / 2)).re else (at' x (j / 2)).im) k hk
   have e0 : ∀ j : Nat, (2 * j) % 2 = 0 := fun j => by omega
   have e1 : ∀ j : Nat, ¬ ((2 * j + 1) % 2 = 0) := fun j => by omega
@@ -85,6 +85,12 @@ theorem butterfly_program_eq_semDft (P : RawProg) (hP : P ∈ Gen.allButterflies
     intro j _
     simp only [cosCtx, Cx.mul_im]
     cases P.inverse <;> simp <;> ring
+
+/-- **the real scalar butterfly is `semDft`** — the semantics `Recipe.sem` gives a `bfly n` leaf -/
+theorem butterfly_program_eq_semDft (P : RawProg) (hP : P ∈ Gen.allButterflies) (S : CosSys R P.grid)
+    (invR : Nat → R) (x : Array (Cx R)) :
+    bflySem P S x = semDft (cosCtx S P.inverse invR) P.n x :=
+  checked_program_eq_semDft P (List.all_eq_true.mp scalar_butterflies_check P hP) S invR x
 
 /-- in particular for the `Recipe.bfly` leaf of the tree semantics -/
 theorem bfly_leaf_is_real_code (P : RawProg) (hP : P ∈ Gen.allButterflies) (S : CosSys R P.grid) (invR : Nat → R)
